@@ -53,3 +53,14 @@ func (brr *BalanceRR) VerifC04Candidates() (idx []int, ok bool) {
 	}
 	return idx, true
 }
+
+// VerifC04Currents returns the `current` of every backend in list order.
+func (brr *BalanceRR) VerifC04Currents() []int {
+	brr.Lock()
+	defer brr.Unlock()
+	out := make([]int, 0, len(brr.backends))
+	for _, b := range brr.backends {
+		out = append(out, b.current)
+	}
+	return out
+}
